@@ -108,8 +108,8 @@ def run(res, b, tier, seed):
             if r[0] != "ok" or r[1] != c.meta["expected_out"] or r[2] != c.meta["expected_status"]:
                 fails.append((c, "behaviour under the cmd model", r))
             probs = batchcheck.analyse(bytes.fromhex(c.out["BATCH"][1]).decode("utf-8", "replace"))
-            if probs:
-                fails.append((c, "structure: " + probs[0], None))
+            for pr_ in probs:           # every problem is classified on its own: a known one must not hide a new one
+                fails.append((c, "structure: " + pr_, None))
         ncases += len(cases)
         distinct |= {hash(c.meta["src"]) for c in cases}
         if first_case is None and cases:
